@@ -82,6 +82,7 @@ package jsonclient
 //@ site Get#1 as hg
 //@ let status = after(pp, pp.res0.StatusCode)
 //@ requires c != nil && c.logger != nil && c.backoff != nil && c.httpClient != nil
+//@ ensures [caller-view] result2 == nil ==> result0 != nil
 //@ ensures [returns-the-200-response-of-this-attempt] result2 == nil ==> pp.called && pp.res2 == nil && status == 200 && result0 == pp.res0 && result1 == pp.res1
 //@ ensures [non-retryable-status-returned-at-once-with-status-and-body] typeof(result2) == RspError && pp.called && pp.res2 == nil && !wb.called ==> as(result2, RspError).StatusCode == status && as(result2, RspError).Body == pp.res1 && status != 200 && status != 408 && status != 429 && status != 503
 //@ at s1 assert [transport-or-parse-error-backs-off-without-override] pp.res2 != nil && s1.arg0 == nil
@@ -93,3 +94,18 @@ package jsonclient
 //@ at wb assert [retry-only-after-retryable-outcomes] pp.res2 != nil || status == 408 || status == 429 || status == 503
 //@ at wb assert [408-retries-without-touching-the-backoff] pp.res2 == nil && status == 408 ==> !s1.called && !s2.called
 //@ at wb assert [context-errors-are-not-retried] pp.res2 != nil ==> pp.res2 != context.Canceled && pp.res2 != context.DeadlineExceeded
+
+//@ func (*JSONClient).GetAndParse
+//@ props C12
+//@ site ctxhttp.Do#1 as do
+//@ site Decode#1 as dc
+//@ site io.ReadAll#1 as rd
+//@ site Close#1 as cl
+//@ requires c != nil && c.httpClient != nil
+//@ ensures [caller-view] result2 == nil ==> result0 != nil
+//@ ensures [success-only-for-200-with-a-decoded-body] result2 == nil ==> do.called && do.res1 == nil && result0 == do.res0 && after(do, do.res0.StatusCode) == 200 && dc.called && dc.res == nil
+//@ ensures [transport-error-passed-on] do.called && do.res1 != nil ==> result2 == do.res1 && result0 == nil
+//@ ensures [non-200-never-succeeds] do.called && do.res1 == nil && after(do, do.res0.StatusCode) != 200 ==> result2 != nil
+//@ ensures [non-200-error-carries-status-and-body] do.called && do.res1 == nil && cl.called && cl.res == nil && rd.res1 == nil && after(do, do.res0.StatusCode) != 200 ==> typeof(result2) == RspError && as(result2, RspError).StatusCode == after(do, do.res0.StatusCode) && as(result2, RspError).Body == rd.res0
+//@ ensures [undecodable-body-error-carries-status-and-body] dc.called && dc.res != nil ==> typeof(result2) == RspError && as(result2, RspError).StatusCode == after(do, do.res0.StatusCode) && as(result2, RspError).Body == rd.res0
+//@ ensures [error-results-are-nil] result2 != nil ==> result0 == nil && result1 == nil
